@@ -1,9 +1,47 @@
 """C17 — metrics obey conservation laws."""
 from ..cacheprop import CacheProp
+from ..core import Case
 from .. import cachegen
 from .c13 import parse_dump
 
 M64 = 1 << 64
+
+
+def ring_cases(rng, n):
+    """ring.go + defaultPolicy.Push / processItems (component `ring`): pushes on chosen stripes and through the real
+    sync.Pool, receipts by the (harness-driven) policy goroutine, dropped stripes, Close; small BufferItems so that the
+    3-slot channel fills up and batches are dropped"""
+    cases = []
+    for j in range(n):
+        capa = rng.choice([1, 2, 2, 3, 4, 5, 8, 16, 64])
+        nc = rng.choice([8, 16, 64, 128, 1000])
+        seeds = [rng.getrandbits(64) for _ in range(4)]
+        keys = [cachegen.mix(7000 + rng.randrange(40)) for _ in range(rng.choice([1, 3, 6]))]
+        nstripes = rng.choice([1, 2, 3])
+        ops = ["door"]
+        mode = rng.choice(["stripes", "pool", "mixed"])
+        p_recv = rng.choice([0.02, 0.1, 0.3])
+        nops = rng.randrange(10, 60) * min(capa, 8)
+        closed = False
+        for _ in range(nops):
+            r = rng.random()
+            if r < p_recv:
+                ops.append("recv")
+            elif r < p_recv + 0.03:
+                ops.append("gc %d" % rng.randrange(nstripes + 1))
+            elif r < p_recv + 0.10 and not closed:
+                ops.append("est %d" % rng.choice(keys))
+            elif r < p_recv + 0.11 and rng.random() < 0.3:
+                ops.append("close")
+                closed = True
+            elif mode == "pool" or (mode == "mixed" and rng.random() < 0.5):
+                ops.append("bpush %d" % rng.choice(keys))
+            else:
+                ops.append("push %d %d" % (rng.randrange(nstripes + 1), rng.choice(keys)))
+        if not closed:
+            ops += ["recv"] * 4 + ["est %d" % k for k in keys]
+        cases.append(Case("rg%d" % j, "ring", [capa, nc] + seeds, ops, tags=["profile:ring"]))
+    return cases
 
 
 class C17(CacheProp):
@@ -19,9 +57,79 @@ class C17(CacheProp):
         cases = cachegen.gen_cases(rng, n, ctx, self.profiles)
         for c in cases:
             c.args[3] = "1"        # metrics on
-        return cases
+        return cases + ring_cases(rng, max(6, n // 8))
+
+    def annotate(self, case, impl_lines):
+        if case.comp != "ring":
+            return super().annotate(case, impl_lines)
+        # the doorkeeper's size / locs (float arithmetic in the code) and cap(itemsCh) as the implementation reports
+        # them, and the stripe sync.Pool handed out for every bpush, are inputs of the model
+        args = list(case.args)
+        ops = []
+        for o, l in zip(case.ops, impl_lines):
+            fs = l.split()
+            if o == "door" and len(fs) == 3 and all(x.isdigit() for x in fs):
+                args = args[:6] + fs
+            if o.startswith("bpush"):
+                o = o + " " + (fs[0][1:] if fs and fs[0][:1] == "s" and fs[0][1:].isdigit() else "0")
+            ops.append(o)
+        ops += [o + " 0" if o.startswith("bpush") else o for o in case.ops[len(ops):]]
+        return Case(case.id, case.comp, args, ops, case.tags)
+
+    def canon(self, case, i, line):
+        return line if case.comp == "ring" else super().canon(case, i, line)
+
+    def nontrivial(self, case, il):
+        if case.comp == "ring":
+            return any(l.startswith("batch") or "drain dropped" in l for l in il)
+        return super().nontrivial(case, il)
+
+    def ring_oracle(self, case, il):
+        """independent of the model: GetsKept+GetsDropped <= pushes, each counter moves only by the size of a drained
+        batch, a batch has exactly BufferItems keys, every key the policy receives was pushed (as multisets), the
+        channel never exceeds its capacity"""
+        fails = []
+        capa = max(int(case.args[0]), 1)
+        pushed = {}
+        npush = 0
+        got = {}
+        kprev = dprev = 0
+        chcap = None
+        for n, (o, l) in enumerate(zip(case.ops, il)):
+            f, r = o.split(), l.split()
+            if f[0] == "door" and len(r) == 3 and r[2].isdigit():
+                chcap = int(r[2])
+            if f[0] in ("push", "bpush"):
+                item = int(f[2] if f[0] == "push" else f[1])
+                pushed[item] = pushed.get(item, 0) + 1
+                npush += 1
+                kv = {t[:2]: t[2:] for t in r if t[:2] in ("k=", "d=") or t[:3] == "ch="}
+                ch = [t[3:] for t in r if t.startswith("ch=")]
+                if "k=" not in kv or "d=" not in kv or not ch:
+                    fails.append("op %d `%s`: %s" % (n, o, l))
+                    continue
+                k, d = int(kv["k="]), int(kv["d="])
+                if k + d > npush:
+                    fails.append("op %d `%s`: GetsKept+GetsDropped=%d exceeds the %d Gets recorded" % (n, o, k + d, npush))
+                if (k - kprev, d - dprev) not in ((0, 0), (capa, 0), (0, capa)):
+                    fails.append("op %d `%s`: GetsKept/GetsDropped moved by (%d,%d), a batch has %d keys" % (
+                        n, o, k - kprev, d - dprev, capa))
+                kprev, dprev = k, d
+                if chcap is not None and ch[0].isdigit() and int(ch[0]) > chcap:
+                    fails.append("op %d `%s`: %s batches queued, channel capacity %d" % (n, o, ch[0], chcap))
+            if f[0] == "recv" and r[:1] == ["batch"]:
+                if len(r) - 1 != capa:
+                    fails.append("op %d: the policy received a batch of %d keys, BufferItems=%d" % (n, len(r) - 1, capa))
+                for t in r[1:]:
+                    got[int(t)] = got.get(int(t), 0) + 1
+                    if got[int(t)] > pushed.get(int(t), 0):
+                        fails.append("op %d: key %s reached the admission sketch %d times but was read %d times" % (
+                            n, t, got[int(t)], pushed.get(int(t), 0)))
+        return fails
 
     def oracle(self, case, il):
+        if case.comp == "ring":
+            return self.ring_oracle(case, il)
         fails = []
         tr = cachegen.Trace(case, il)
         gets = drops = 0
